@@ -156,6 +156,22 @@ func valSxD(x interface{}, depth int) *Sx {
 		}
 		return L(out...)
 	case reflect.Map:
+		if rt.Key().Kind() == reflect.String && rt.Elem().Kind() != reflect.Interface && !(rt.Elem().Kind() == reflect.Struct && rt.Elem().NumField() == 0) {
+			// map[string]T for a concrete T: `(tmap <zero of T> <is nil> (k v)…)`.  The element zero is what fetch
+			// returns for a missing key (reflect.Zero(v.Type().Elem())); a nil map reads like an empty one but is nil.
+			out := []*Sx{A("tmap"), valSxD(reflect.Zero(rt.Elem()).Interface(), depth+1), SBool(rv.IsNil())}
+			keys := rv.MapKeys()
+			names := make([]string, 0, len(keys))
+			for _, k := range keys {
+				names = append(names, k.String())
+			}
+			sort.Strings(names)
+			for _, k := range names {
+				e := rv.MapIndex(reflect.ValueOf(k).Convert(rt.Key()))
+				out = append(out, L(SStr(k), valSxD(e.Interface(), depth+1)))
+			}
+			return L(out...)
+		}
 		if rv.IsNil() {
 			return T("opaque", SStr("nil-"+rt.String()))
 		}
